@@ -72,18 +72,28 @@ func renderSimple(games []bookGame) string {
 	return sb.String()
 }
 
-// sanOf converts a game to SAN tokens up to (and including, verbatim) the first illegal move
+// sanOf converts a game to SAN tokens. The first illegal move ends the legal prefix: it is written as an unreadable
+// token, and the moves after it are written as they would read in the position where the line stalled (SAN if legal
+// there, else verbatim) - a reader that does not stop at the illegal move would go on playing them.
 func sanOf(g bookGame) []string {
 	r := refchess.MustFEN(startFen)
 	var toks []string
+	stalled := false
 	for _, u := range g {
 		m, ok := r.FindUci(u)
-		if !ok {
-			toks = append(toks, "Qh9") // an unreadable / illegal move ends the legal prefix
-			break
+		switch {
+		case stalled && ok:
+			toks = append(toks, r.SAN(m))
+			r = r.Make(m)
+		case stalled:
+			toks = append(toks, u)
+		case !ok:
+			toks = append(toks, "Qh9")
+			stalled = true
+		default:
+			toks = append(toks, r.SAN(m))
+			r = r.Make(m)
 		}
-		toks = append(toks, r.SAN(m))
-		r = r.Make(m)
 	}
 	return toks
 }
@@ -119,7 +129,7 @@ func renderPgn(games []bookGame) string {
 		if len(g) == 0 {
 			continue
 		}
-		fmt.Fprintf(&sb, "[Event \"verif %d\"]\n[Site \"?\"]\n[White \"A, B\"]\n[Black \"C (D)\"]\n[Result \"1-0\"]\n\n", gi)
+		fmt.Fprintf(&sb, "[Event \"verif %d\"]\n[Site \"?\"]\n[White \"A, B\"]\n[Black \"C (D)\"]\n[Result \"1-0\"]\n\n%% escape line e2e4 (ignored)\n", gi)
 		toks := sanOf(g)
 		var mv strings.Builder
 		for i, t := range toks {
@@ -127,9 +137,12 @@ func renderPgn(games []bookGame) string {
 				fmt.Fprintf(&mv, "%d. ", i/2+1)
 			}
 			mv.WriteString(t)
+			if t != "Qh9" && !strings.ContainsAny(t, "+#") {
+				mv.WriteString([]string{"", "!", "?!", ""}[(gi+2*i)%4]) // suffix annotations
+			}
 			switch (gi + i) % 4 {
 			case 0:
-				mv.WriteString(" {a comment with e4 and Nf3 inside}")
+				mv.WriteString(" {a comment with e4 and Nf3 inside\ncontinued on a second line with d4}")
 			case 1:
 				mv.WriteString(" $1")
 			case 2:
@@ -246,6 +259,39 @@ var specialGames = []bookGame{
 	{"e2e4", "c7c5", "g1f3", "d7d6", "d2d4", "c5d4", "f3d4", "g8f6", "b1c3", "a7a6"},
 }
 
+// curatedGames: lines from the start position chosen for their notation: a pinned candidate that needs no
+// disambiguation (Winawer 4.Ne2), file disambiguation (Nbd2, Nbd7, Nca3), rank disambiguation (N1c3), en passant, checks,
+// promotion with capture and under-promotion, both castlings, mates (nothing is legal after them), and illegal or
+// unreadable moves mid-line whose successors are legal in the position where the line stalled.
+var curatedGames = []bookGame{
+	{"e2e4", "e7e6", "d2d4", "d7d5", "b1c3", "f8b4", "g1e2", "d5e4", "a2a3", "b4c3", "e2c3"},
+	{"d2d4", "d7d5", "g1f3", "g8f6", "b1d2", "b8d7", "e2e3", "e7e6", "f1d3", "f8d6", "e1g1", "e8g8"},
+	{"b1c3", "a7a6", "c3b5", "h7h6", "g1f3", "h6h5", "f3e5", "h5h4", "e5c4", "h4h3", "c4a3", "h3g2", "a3b1", "g2h1q", "b1c3", "h1h2", "b5c7", "d8c7"},
+	{"e2e4", "a7a6", "e4e5", "d7d5", "e5d6", "c7d6", "f1b5", "a6b5"},
+	{"e2e4", "d7d5", "e4d5", "c7c6", "d5c6", "a7a6", "c6b7", "a6a5", "b7a8n"},
+	{"f2f3", "e7e5", "g2g4", "d8h4"},
+	{"e2e4", "e7e5", "f1c4", "b8c6", "d1h5", "g8f6", "h5f7"},
+	{"d2d4", "d7d5", "b1c3", "b8c6", "c1f4", "c8f5", "d1d2", "d8d7", "e1c1", "e8c8"},
+}
+
+// illegal or unreadable move mid-line, followed by moves that are legal where the line stalled
+var brokenGames = []bookGame{
+	{"e2e4", "e7e5", "g1f4", "f1c4", "g8f6"},
+	{"e2e4", "e7e5", "xyz", "g1f3", "b8c6"},
+	{"f2f3", "e7e5", "g2g4", "d8h4", "e2e4", "e5e4"}, // moves after the mate
+	{"d2d4", "d7d5", "c1g5", "e2e4", "d5e4", "b1c3"},
+}
+
+// curatedSelfTest: the curated lines are legal to the end (a typo would silently shorten what is compared).
+func curatedSelfTest() string {
+	for _, g := range curatedGames {
+		if i := playable(refchess.MustFEN(startFen), g); i >= 0 {
+			return fmt.Sprintf("curated line %v: move %d (%s) is not legal", g, i+1, g[i])
+		}
+	}
+	return ""
+}
+
 func buildBook(content string, format openingbook.BookFormat, useCache bool) (*openingbook.Book, string, error) {
 	dir, file := writeBookFile(content)
 	b := openingbook.NewBook()
@@ -261,6 +307,10 @@ func c19(tier string, args []string) int {
 	}
 	run.Rule("schedules: small game collections (2 lines x 3 moves: all interleavings of the per-line goroutines; 3 and 4 lines: deviation-bounded) built by the instrumented openingbook.go, every schedule's book compared with the sequential reference (positions, visit counts, offered moves legal / linked / unique), races on the book map; formats: every collection of up to 2 (3) games from all move sequences up to length 3 over a 6-move-per-side alphabet plus special lines (promotion, castling, illegal move, repetition), rendered as Simple, SAN and PGN (tags, comments, NAGs, nested variations, results): the three books equal the reference")
 	refSelfTest(run)
+	if msg := curatedSelfTest(); msg != "" {
+		fmt.Fprintln(os.Stderr, msg)
+		return 2
+	}
 	shard, n, worker := vl.WorkerShard()
 	if !worker {
 		return run.RunWorkers(16)
@@ -372,6 +422,10 @@ func c19(tier string, args []string) int {
 		collections = append(collections, []bookGame{g}, []bookGame{g, single[5]}, []bookGame{single[40], g, g})
 	}
 	collections = append(collections, specialGames)
+	for _, g := range append(append([]bookGame{}, curatedGames...), brokenGames...) {
+		collections = append(collections, []bookGame{g}, []bookGame{single[7], g})
+	}
+	collections = append(collections, curatedGames, brokenGames)
 	for ci, col := range collections {
 		if ci%n != shard || run.Expired() {
 			continue
